@@ -296,3 +296,88 @@ func RegisteredTypes() []gopacket.LayerType {
 	}
 	return out
 }
+
+// LayerAware mutates inside the header of one decoded layer of a fixture (so that deep layers get as
+// much attention as the link layer), with protocol-specific shapes for name compression pointers,
+// option lists and length fields.  Returns nil if the fixture has no usable layer.
+func LayerAware(r *vh.Rand, f Fixture) ([]byte, string) {
+	data := append([]byte(nil), f.Data...)
+	var p gopacket.Packet
+	func() {
+		defer func() { recover() }()
+		p = gopacket.NewPacket(data, f.First, gopacket.DecodeOptions{NoCopy: true, DecodeStreamsAsDatagrams: true})
+		p.Layers()
+	}()
+	if p == nil || len(p.Layers()) == 0 {
+		return nil, ""
+	}
+	ls := p.Layers()
+	l := ls[r.Intn(len(ls))]
+	// layers with rich internal structure get extra attention when present
+	for _, x := range ls {
+		switch x.LayerType().String() {
+		case "DNS", "TCP":
+			if r.Intn(3) == 0 {
+				l = x
+			}
+		}
+	}
+	c := l.LayerContents()
+	if len(c) == 0 || cap(c) > cap(data) {
+		return nil, ""
+	}
+	off := cap(data) - cap(c) // contents is a subslice of data (NoCopy)
+	if off < 0 || off+len(c) > len(data) {
+		return nil, ""
+	}
+	out := append([]byte(nil), data...)
+	name := l.LayerType().String()
+	switch {
+	case name == "DNS" && len(c) > 14:
+		// compression pointers: to itself, to the header end, to another pointer
+		q := 12 + r.Intn(len(c)-13)
+		if r.Intn(3) == 0 {
+			q = 12 // the first name always starts here
+		}
+		tgt := []int{q, q, 12, q - 2, q + 2, len(c) - 1, 0}[r.Intn(7)]
+		if tgt < 0 {
+			tgt = 0
+		}
+		out[off+q] = 0xC0 | byte(tgt>>8)
+		out[off+q+1] = byte(tgt)
+		return out, "dnsptr@" + strconv.Itoa(q) + "->" + strconv.Itoa(tgt)
+	case name == "TCP" && len(c) >= 20:
+		// option list shapes: kind, length at the boundary values
+		hl := int(c[12]>>4) * 4
+		if r.Intn(3) == 0 || hl <= 20 {
+			out[off+12] = byte(5+r.Intn(11))<<4 | c[12]&0x0f
+			return out, "tcp-dataoffset"
+		}
+		q := 20 + r.Intn(hl-20)
+		if off+q+1 < len(out) {
+			out[off+q] = []byte{30, 30, 2, 3, 4, 5, 8, 0, 1, 254, 34, 69}[r.Intn(12)]
+			out[off+q+1] = []byte{0, 1, 2, 3, 4, 8, 12, 20, 40, 255}[r.Intn(10)]
+			if off+q+2 < len(out) && r.Bool() {
+				out[off+q+2] = byte(r.Intn(16) << 4)
+			}
+		}
+		return out, "tcpopt@" + strconv.Itoa(q)
+	}
+	// generic: a boundary value somewhere in this layer's header
+	q := r.Intn(len(c))
+	switch r.Intn(4) {
+	case 0:
+		out[off+q] = []byte{0, 1, 0xff, 0x7f, 0x80, 0xfe, 4, 5, 6, 15, 16}[r.Intn(11)]
+	case 1:
+		out[off+q] ^= 1 << uint(r.Intn(8))
+	case 2:
+		if q+1 < len(c) {
+			v := []uint16{0, 1, 0xffff, uint16(len(c)), uint16(len(c) - 1), uint16(len(c) + 1), uint16(len(data) - off), 8, 20, 40}[r.Intn(10)]
+			out[off+q], out[off+q+1] = byte(v>>8), byte(v)
+		}
+	case 3:
+		// truncate the packet inside this layer
+		return out[:off+q], name + "-trunc@" + strconv.Itoa(q)
+	}
+	return out, name + "@" + strconv.Itoa(q)
+}
